@@ -53,6 +53,8 @@ func (e *Enc) envTxn(f *frame, fn *ssa.Function, args []Val, pos token.Pos, writ
 	var cur T
 	if write {
 		cur = e.def("txnid", add(last, bv64(1)))
+		// transaction ids do not overflow (2^62 write transactions; listed assumption)
+		e.assume(ult(cur, bv64(1<<62)))
 		e.setVar("G|dirty", bv64(0))
 	} else {
 		cur = last
